@@ -228,6 +228,10 @@ class Interp:
         if isinstance(a, PyObj) or isinstance(b, PyObj):
             if isinstance(a, PyObj) and isinstance(b, PyObj):
                 return z3.BoolVal(a.tag == b.tag and a.__dict__ == b.__dict__)
+            o, v = (a, b) if isinstance(a, PyObj) else (b, a)
+            if o.tag == 'module' and isinstance(v, V):
+                k = v.kind.inner if isinstance(v.kind, K.Opt) else v.kind
+                return self.eq(self.opaque_const(o.name, k), v)
             raise Unsupported('== between %r and %r' % (a, b))
         ka, kb = a.kind, b.kind
         if isinstance(ka, K.Opt) or isinstance(kb, K.Opt):
@@ -411,7 +415,20 @@ class Interp:
                     return K.from_py_const(ast.literal_eval(n))
                 except Exception:
                     pass
+        # a name the real module imports or defines at top level but the sidecar does not model: an opaque object
+        # (attribute reads and == on it are unconstrained; calling it stays unsupported)
+        if self.x is not None and not self.spec:
+            from . import extract
+            if extract.module_binds(self.x.relpath, name):
+                self.p.__dict__.setdefault('opaque', set()).add('name ' + name)
+                return PyObj('module', name=name)
         raise Unsupported('unknown name %r (line %s)' % (name, getattr(node, 'lineno', '?')))
+
+    def opaque_const(self, name, kind):
+        """The value of an unmodelled module-level object, as an unconstrained constant of the kind it is compared with."""
+        if kind.nleaves() != 1:
+            raise Unsupported('comparison of opaque %s with %r' % (name, kind))
+        return V(kind, [z3.Const('og!%s!%s' % (name, kind), kind.leaf_sorts()[0])])
 
     # ---- heap -----------------------------------------------------------------
     def heap_key(self, cls, field):
@@ -911,6 +928,14 @@ class Interp:
                                     'AttributeError', 'attribute %s' % attr, node)
                 owner, fk = self.w.field_kind(subs[0], attr)
                 return self.heap_read(base, '%s.%s' % (owner, attr), fk, heap)
+            if not self.spec and heap is None and self.x is not None:
+                # an attribute the sidecar does not declare: an unconstrained opaque value, stable while the heap is
+                memo = self.p.__dict__.setdefault('opaque_attr', {})
+                mk = (base.t.get_id(), attr, self.p.heap_epoch)
+                if mk not in memo:
+                    memo[mk] = self.p.fresh_value(K.Atom('Opaque'), 'opq!%s.%s' % (k.cls, attr))
+                    self.p.__dict__.setdefault('opaque', set()).add('attribute %s.%s' % (k.cls, attr))
+                return memo[mk]
             raise Unsupported('attribute %s.%s undeclared (line %s)' % (k.cls, attr,
                                                                         getattr(node, 'lineno', '?')))
         if isinstance(k, (K.Seq, K.Set, K.Map, K._Str, K.Rec)):
